@@ -1,0 +1,9 @@
+//go:build !verif
+
+package statsd
+
+import "net"
+
+// verifBatchReader lets the simulation harness supply its own BatchReader. Without the verif
+// build tag it never does.
+func verifBatchReader(conn net.PacketConn) BatchReader { return nil }
